@@ -39,7 +39,7 @@ fn run(variant: usize) -> CaseOut {
     // the repeated-keys variants select response keys more than once (every occurrence resolves and
     // may fail on its own); faults there stay on nullable fields, where nothing races
     let dup = variant >= 4;
-    let query = gen_operation(op, if dup { GenCfg { dup_keys: true, ..GenCfg::default() } } else { GenCfg::default() });
+    let query = gen_operation(op, if dup { GenCfg { dup_keys: true, ..GenCfg::default() } } else { GenCfg::default() }.for_flavour(flavour == Flavour::Static));
     set_latency(0, 0);
     let base = run_request("baseline", flavour, 0, &query, Some(Params::default()));
     let Some(base_resp) = base.resp else {
